@@ -83,7 +83,9 @@ PRESENTATIONS = [
     ("conditional", "(if true then ({p} => {b}) else ({p} => 0))", "x"),
 ]
 LISTS = [("len0", "[]", []), ("len1", "[4]", ["4"]), ("len2", "[1, 2]", ["1", "2"]), ("len4", "[3, 1, 2, 0]", ["3", "1", "2", "0"]),
-         ("repeated", "[2, 2, 2]", ["2", "2", "2"]), ("bound", "xs", ["5", "6", "7"]), ("range", "range(4)", ["0", "1", "2", "3"])]
+         ("repeated", "[2, 2, 2]", ["2", "2", "2"]), ("bound", "xs", ["5", "6", "7"]), ("range", "range(4)", ["0", "1", "2", "3"]),
+         # long enough for a form that switches strategy by length (chunks, pre-sized buffers)
+         ("long", "range(40)", [str(i) for i in range(40)])]
 CONTEXTS = ["statement", "do-block", "function-body", "twice", "names-bound-outside", "leak-probe", "call-results"]
 BASE_DEFS = "k0 = 7\nxs = [5, 6, 7]\n"
 
